@@ -24,7 +24,8 @@ def handle (line : String) : String :=
     | some conc, some base, some n, some reads =>
       if conc > 1000 || base > 4000000000 || n > 200 || reads.any (·.isEmpty) then "bad-op" else
       let cfg : Cfg := { concurrency := conc, popOnlyWhenComplete := Gen.HelperRead.popOnlyWhenComplete,
-                         dropUnterminated := Gen.HelperRead.dropUnterminated, nulCloses := Gen.HelperRead.nulCloses }
+                         dropUnterminated := Gen.HelperRead.dropUnterminated, nulCloses := Gen.HelperRead.nulCloses,
+                         wideChannelId := Gen.HelperRead.wideChannelId }
       let st := run cfg base n reads
       if st.dead then "abort:assert" else
       let ds := if n == 0 then "-" else ",".intercalate ((List.range n).map fun j => tok st (j + 1))
